@@ -13,6 +13,8 @@ import (
 	"github.com/shopspring/decimal"
 )
 
+var numberTextRE = regexp.MustCompile(`^-?(([0-9]+)|([0-9]+\.[0-9]+)|(\.[0-9]+))$`)
+
 // approxNumber: the number an argument converts to (types.ToXNumber on number / numeric text / JSON number)
 func approxNumber(v VSpec) (decimal.Decimal, bool) {
 	switch v.T {
@@ -20,7 +22,8 @@ func approxNumber(v VSpec) (decimal.Decimal, bool) {
 		d, err := decimal.NewFromString(v.S)
 		return d, err == nil
 	case "text":
-		if numericText(v.S) {
+		// same language as types.newXNumberFromString: optional minus, digits, optional fraction (any length)
+		if numberTextRE.MatchString(strings.TrimSpace(v.S)) {
 			d, err := decimal.NewFromString(strings.TrimSpace(v.S))
 			return d, err == nil
 		}
